@@ -500,6 +500,16 @@ class YieldInjector:
             time.sleep(0)
         return None
 
+    def _call(self, code, offset, callable_, arg0):
+        # a call boundary inside a shared-state code object: CPython checks the eval breaker
+        # after CALL instructions, so a thread switch here is one the program can really have
+        with self._lock:
+            self.call_yields += 1
+            if len(self.sig) < 2000:
+                self.sig.append((threading.get_ident() & 0xFFFF, code.co_name, -offset))
+        time.sleep(0)
+        return None
+
     def __enter__(self):
         import acryo
         import gc
@@ -510,7 +520,9 @@ class YieldInjector:
             mon.use_tool_id(self.TOOL, "vcheck-yield")
         except ValueError:
             pass
+        self.call_yields = 0
         mon.register_callback(self.TOOL, mon.events.LINE, self._line)
+        mon.register_callback(self.TOOL, mon.events.CALL, self._call)
         root = os.path.dirname(os.path.realpath(acryo.__file__))
         seen = set()
 
@@ -544,8 +556,13 @@ class YieldInjector:
                     if c is not None and os.path.realpath(c.co_filename).startswith(root):
                         walk(c)
         for c in seen:
+            ev = 0
             if self.only is None or c.co_name in self.only:
-                mon.set_local_events(self.TOOL, c, mon.events.LINE)
+                ev |= mon.events.LINE
+            if c.co_name in self.always:
+                ev |= mon.events.CALL | mon.events.LINE
+            if ev:
+                mon.set_local_events(self.TOOL, c, ev)
                 self._codes.append(c)
         self._old = sys.getswitchinterval()
         sys.setswitchinterval(1e-6)
@@ -556,6 +573,7 @@ class YieldInjector:
         for c in self._codes:
             mon.set_local_events(self.TOOL, c, 0)
         mon.register_callback(self.TOOL, mon.events.LINE, None)
+        mon.register_callback(self.TOOL, mon.events.CALL, None)
         try:
             mon.free_tool_id(self.TOOL)
         except Exception:
@@ -567,3 +585,61 @@ class YieldInjector:
         import hashlib
 
         return hashlib.sha1(repr(self.sig).encode()).hexdigest()[:10]
+
+
+# --------------------------------------------------------------------------- cache audit
+
+
+class AuditDict(dict):
+    """dict that logs (seq, thread, op) under its own lock.  Iteration is *not* instrumented:
+    a Python-level iterator would add hand-over points the real dict view does not have."""
+
+    def __init__(self, *a, **k):
+        super().__init__(*a, **k)
+        self.events = []
+        self._alock = threading.Lock()
+
+    def _ev(self, op):
+        with self._alock:
+            self.events.append((len(self.events), threading.get_ident(), op))
+
+    def get(self, key, default=None):
+        hit = dict.__contains__(self, key)
+        self._ev("get-hit" if hit else "get-miss")
+        return dict.get(self, key, default)
+
+    def __setitem__(self, key, value):
+        self._ev("set-upd" if dict.__contains__(self, key) else "set-new")
+        dict.__setitem__(self, key, value)
+
+    def values(self):
+        self._ev("values")
+        return dict.values(self)
+
+
+_AUDITS: list = []
+
+
+def install_cache_audit():
+    """Every TemplateMaskCache created from now on keeps its entries in an AuditDict."""
+    from acryo.alignment import _base
+
+    if getattr(_base.TemplateMaskCache, "_vcheck_audit", False):
+        return
+    orig = _base.TemplateMaskCache.__init__
+
+    def __init__(self):
+        orig(self)
+        self._dict = AuditDict(self._dict)
+        with _LOCK:
+            _AUDITS.append(self._dict)
+
+    _base.TemplateMaskCache.__init__ = __init__
+    _base.TemplateMaskCache._vcheck_audit = True
+
+
+def take_audits():
+    with _LOCK:
+        out = list(_AUDITS)
+        _AUDITS.clear()
+    return out
